@@ -21,6 +21,9 @@ entry points and handles (all optional, see harness/src/mw_timelimiter.rs): head
         `probe source [timeout=<t>] path=<[cb]*>` (the configured timeout source constructed stand-alone, cloned ('c') / clone_box'ed ('b')
         along the path, asked for the timeout of a request: `probe source <ms|max>`).  A result text may carry `!accessors:…` (is_timeout /
         into_inner / ResilienceError::from contradict the variant) or `!listeners:…` (the counting listeners did not fire once per result).
+wake-ups: `probe woken c=<c>` — has the waker of caller c's call future fired since that future was last polled?  Logged as `probe woken <c>`,
+        the answer travels as the observed choice `@woken=<0|1>` on the op line (the model checks the obligation: once min(done, deadline)
+        has been reached the waker of a pending call must have fired; it may fire spuriously) and as the meta line `#woken <c> <t> <0|1>`
 log:    `inner_orphaned <c> <k>`: the last instance of the (scripted) inner service was dropped while call k was unfinished — the inner
         service of the harness ties in-flight work to live handles, like a client handle of a shared connection
 
@@ -368,6 +371,19 @@ def _decorate(rng, header, ops):
                 pr += " timeout=%s" % tmo_text(rng.choice([0, 1, 7, 33, rng.choice(HUGE), INF]))
             pr += " path=%s" % "".join(rng.choice("cb") for _ in range(rng.randint(0, 4)))
             out.insert(rng.randint(0, len(out)), pr)
+    if rng.random() < 0.45:
+        # the wake-up of a pending call: pure observations, mostly right after the clock moved or a poll returned
+        ids = sorted({o.split()[1] for o in out if o.startswith("arrive ") and len(o.split()) > 1}, key=int)
+        for _ in range(rng.randint(1, 6)):
+            c = rng.choice(ids) if ids and rng.random() < 0.95 else str(rng.randint(1, 14))
+            # while the call is (probably) pending: soon after its first poll
+            first = [i for i, o in enumerate(out) if o.split()[:2] == ["poll", c] or (o == "settle" and ("arrive %s " % c) in " ".join(out[:i]) + " ")]
+            pos = [i + 1 for i, o in enumerate(out) if o.split()[:1] in (["adv"], ["poll"], ["settle"]) and (not first or i >= first[0])]
+            if first and pos and rng.random() < 0.8:
+                at = rng.choice(pos[:4])
+            else:
+                at = rng.choice(pos) if pos and rng.random() < 0.7 else rng.randint(0, len(out))
+            out.insert(at, "probe woken c=%s" % c)
     return {"header": header, "ops": out}
 
 
@@ -464,6 +480,10 @@ class View:
         self.marked = []      # (caller, instant, text as logged) of results whose text carries `!accessors:` / `!listeners:`
         self.forgets = []     # (position, instant, what)
         self.probes = []      # (instant, words after `probe`)
+        self.woken = []       # (position, caller, instant, fired?) of every `probe woken`
+        self.fp_pos = {}      # caller -> position of its first poll
+        self.pollend = {}     # caller -> instant of the latest poll that left it pending
+        self.pollend_at = []  # (position, caller, instant)
         lastwake = {}
         for i, (kind, w, t) in enumerate(self.ev):
             if not w:
@@ -471,6 +491,11 @@ class View:
             if kind == "meta":
                 if w[0] == "#fp":
                     self.fp[w[1]] = int(w[2])
+                    self.fp_pos[w[1]] = i
+                elif w[0] == "#woken" and len(w) > 3:
+                    self.woken.append((i, w[1], int(w[2]), w[3] == "1"))
+                elif w[0] == "#pollend" and len(w) > 2:
+                    self.pollend_at.append((i, w[1], int(w[2])))
                 elif w[0] == "#wake":
                     lastwake[w[1]] = (i, [int(x) for x in w[2].split(",")])
                 elif w[0] == "#drop":
@@ -752,6 +777,40 @@ def mon_background(case, lines, meta):
         if not v.cancel and c in v.idrop:
             return "caller %s: inner call dropped at t=%d in non-cancel mode: it must keep running to completion in the background" % (
                 c, v.idrop[c][0])
+    return None
+
+
+def _pending_at(v, c, pos):
+    """is the call future of caller c pending (polled at least once, neither resolved nor dropped) at timeline position pos?"""
+    if c not in v.fp_pos or v.fp_pos[c] > pos or c not in v.script:
+        return False
+    if c in v.result and v.result[c][2] < pos:
+        return False
+    if c in v.dropped and v.dropped[c][1] < pos:
+        return False
+    return True
+
+
+def mon_wakeup(case, lines, meta):
+    """'resolves no later than its timeout' needs the runtime to poll the call when min(done, deadline) is reached: a pending call
+    future whose inner call has finished (cancel mode: its timer; non-cancel mode: the oneshot, also when the task panicked) or whose
+    deadline has passed must have woken its caller — observed by `probe woken` (the waker fired since the future was last polled)"""
+    v = View(case, lines, meta)
+    for pos, c, t, fired in v.woken:
+        if fired or not _pending_at(v, c, pos):
+            continue
+        t_eff, done, deadline, out = v.times(c)
+        m = deadline if done is None else min(done, deadline)
+        if m >= INF or t < m:
+            continue
+        last = [tp for (pp, cc, tp) in v.pollend_at if cc == c and pp < pos]
+        if last and last[-1] >= m:
+            continue         # polled at or after min(done, deadline) and still pending: c06-resolution-instant states that one
+        return ("caller %s (first polled at t=%d, timeout %s, inner call %s; %s mode) is pending at t=%d, min(done, deadline)=%d has been "
+                "reached, and its waker has not fired since it was last polled (t=%s): nothing tells the runtime to poll it again, so it "
+                "does not resolve by its deadline" % (
+                    c, v.fp[c], tmo_text(t_eff), "never completes" if done is None else "done at t=%d (%s)" % (done, out),
+                    "cancel" if v.cancel else "non-cancel", t, m, last[-1] if last else "?"))
     return None
 
 
@@ -1062,6 +1121,29 @@ def _entry_tags(case, lines, meta, cancel, script):
             called.setdefault(w[1], t)
         elif w[0] == "probe" and w[1:2] == ["source"]:
             tags.append("probe-source")
+    v = None
+    for _, m in meta:
+        if m.startswith("#woken"):
+            v = v or View(case, lines, meta)
+    if v is not None:
+        for pos, c, t, fired in v.woken:
+            if not _pending_at(v, c, pos):
+                tags.append("woken-probe-nothing-pending")
+                continue
+            t_eff, done, deadline, out = v.times(c)
+            m = deadline if done is None else min(done, deadline)
+            if t >= m:
+                tags.append("woken-at-deadline" if (done is None or deadline < done) else "woken-at-done")
+                if out == "panic" and not cancel and done is not None and done < deadline:
+                    tags.append("woken-by-panicked-task")
+                if t > m:
+                    tags.append("woken-and-not-polled-since")
+            elif fired:
+                tags.append("woken-spuriously")
+            else:
+                tags.append("not-woken-before-min")
+            if m >= INF:
+                tags.append("woken-probe-nothing-armed")
     forget_lines = [m.split() for _, m in meta if m.startswith("#forget")]
     for w in forget_lines:
         tags.append("forget-layer" if w[2:] == ["layer"] else "forget-handle" if len(w) > 3 else "forget-service")
@@ -1133,10 +1215,17 @@ def _entry_tags(case, lines, meta, cancel, script):
                     made[key].append((c, now))
             if c in script and script[c][0] == 0 and not cancel and c in called:
                 tags.append("timeout-zero-nocancel")
+                if script[c][1] == 0 and c in res_t and res_t[c][1].split("!")[0] == "err:timeout":
+                    tags.append("timeout-zero-nocancel-lat0")      # done = deadline = first poll: the one tie that goes to the timeout
+            if (c in script and script[c][2] == "panic" and not cancel and c in called and c in res_t
+                    and res_t[c][1].split("!")[0] == "err:timeout" and res_t[c][0] < called[c] + script[c][0]):
+                tags.append("nocancel-panic-timeout-before-deadline")
     return tags
 
 
-ALL = ["via-new", "via-default", "chain-name", "chain-listeners", "probe-source", "probe-source-boxed", "svc-several", "svc-from-layer-clone",
+ALL = ["woken-probe-nothing-pending", "woken-at-deadline", "woken-at-done", "woken-by-panicked-task", "woken-and-not-polled-since",
+       "not-woken-before-min", "woken-probe-nothing-armed", "timeout-zero-nocancel-lat0", "nocancel-panic-timeout-before-deadline",
+       "via-new", "via-default", "chain-name", "chain-listeners", "probe-source", "probe-source-boxed", "svc-several", "svc-from-layer-clone",
        "svc-after-forget-layer", "handle-kept", "handle-clone-after-call", "handle-reused", "handle-reused-call-in-flight",
        "readyerr-on-handle-calls-in-flight", "forget-handle", "forget-service", "forget-layer", "forget-service-detached-running",
        "timeout-zero-nocancel",
@@ -1164,10 +1253,16 @@ LEVEL_NOTE = ("Trusted: Lean kernel; the transcription of tokio::time::timeout (
               "spawn + oneshot + biased select! (oneshot first, then sleep(timeout)) and of the timer wheel's firing order in "
               "TR.Model.TimeLimiter, validated only by the sampled "
               "correspondence check; the harness (virtual clock, manual poller, scripted inner service) and the python diff/monitors. "
-              "'At the instant' is decided by tokio's timer and wakers: the theorems cover the decision taken at every poll and the "
-              "instant from which a poll resolves; that the caller is actually woken at min(done, deadline) is observed by the "
-              "monitor c06-resolution-instant on the sampled schedules (#wake lines), not proved. Panicking inner calls are outside "
-              "the property's quantifier (modelled: cancel mode propagates the panic, non-cancel mode reports a timeout). "
+              "'At the instant' is decided by tokio's timer and wakers: the model carries the wake-up of a pending call (Caller.wakeup: the "
+              "earliest armed one of {inner completion, deadline}) and the theorems resolves_no_later_than_timeout / pending_call_never_overdue "
+              "prove, over the timestamped log, that a caller that is polled whenever it is woken — the hypothesis PolledWhenWoken on the "
+              "operation list: the clock never moves past the armed wake-up of a pending call — gets its result at min(done, deadline) <= first "
+              "poll + timeout; that the real waker fires once that instant is reached is an obligation the model checks on every `probe woken` "
+              "(observed choice @woken: a waker may fire spuriously, it must not stay silent) and the monitors c06-wake-up / "
+              "c06-resolution-instant state over the implementation log (#woken / #wake lines) on the sampled schedules; that the runtime then "
+              "polls the task is tokio's contract, trusted. Panicking inner calls are outside "
+              "the property's quantifier (modelled, theorem panicking_inner_call: cancel mode propagates the panic, non-cancel mode reports "
+              "err:timeout at the instant the task died, possibly before the deadline — notes/proofs-timelimiter.md). "
               "Handles of the service are not part of the model (the fate of an inner call is a function of its own caller's operations "
               "and the clock): that the layer keeps the inner service instance alive for as long as the call made on it runs is observed "
               "by the monitor c06-background-completion against a scripted inner service that notices when its last instance goes away "
@@ -1189,15 +1284,15 @@ SPECS = {
         "module": "TR.Props.C06",
         "gen": gen,
         "monitors": [("c06-error-accessors", mon_accessors), ("c06-timeout-source", mon_source), ("c06-listeners", mon_listeners),
-                     ("c06-no-panic", mon_nopanic), ("c06-resolution-instant", mon_instant), ("c06-result-kind", mon_kind),
+                     ("c06-no-panic", mon_nopanic), ("c06-resolution-instant", mon_instant), ("c06-wake-up", mon_wakeup), ("c06-result-kind", mon_kind),
                      ("c06-readiness-propagated", mon_readiness), ("c06-inner-fate", mon_fate), ("c06-background-completion", mon_background),
                      ("c06-intime-result-lost", mon_intime_result)],
         "transitions": transitions,
         "canon": canon,
         "nontrivial": nontrivial,
         "all_transitions": ALL,
-        "model_modules": ["TR.Model.TimeLimiter", "TR.Lemmas.TimeLimiter"],
-        "lean_files": ["TR.Model.TimeLimiter", "TR.Lemmas.TimeLimiter"],
+        "model_modules": ["TR.Model.TimeLimiter", "TR.Lemmas.TimeLimiter", "TR.Lemmas.TimeLimiterWake", "TR.Lemmas.TimeLimiterTrace", "TR.Lemmas.TimeLimiterOrder"],
+        "lean_files": ["TR.Model.TimeLimiter", "TR.Lemmas.TimeLimiter", "TR.Lemmas.TimeLimiterWake", "TR.Lemmas.TimeLimiterTrace", "TR.Lemmas.TimeLimiterOrder"],
         "sizes": (800, 40000),
         "rule": "seeded random op sequences (arrive/poll/drop/adv/settle/dropall, and in 30% of the cases one `manual dropsvc`: the callers let "
                 "go of the service, right after the calls are made or at a random point) over 1..6 callers (plus up to 6 retries of refused "
@@ -1211,7 +1306,8 @@ SPECS = {
                 "through builder() / TimeLimiterConfigBuilder::new() / ::default() (30%), .name and on_success/on_error/on_timeout setters anywhere in "
                 "the chain (45% of the chains), in 45% of the cases 1..3 services built lazily from the one layer value (or a clone of it), calls made "
                 "on kept handles that are re-used while earlier calls are in flight and cloned after calls, handles / whole services / the layer "
-                "value dropped at any point, and (25%) probes of the stand-alone timeout source cloned / boxed along a random path; latencies at timeout-1/timeout/timeout+1/0/random/never, ok/err (few panics), creation "
+                "value dropped at any point, (25%) probes of the stand-alone timeout source cloned / boxed along a random path, and (45%) 1..6 `probe woken` "
+                "observations of a caller's waker, mostly soon after its first poll / after the clock moved; latencies at timeout-1/timeout/timeout+1/0/random/never, ok/err (few panics), creation "
                 "separated from the first poll, advances biased to done/deadline -1/0/+1 and to jumps over both (late polls); distinct = "
                 "distinct implementation event log; non-trivial = a timeout, a tie, a late poll, a dropped or detached inner call",
         "level_text": "Theorems TR.Props.C06.{builder_mode_last_wins, builder_source_last_wins, nocancel_chain_never_drops, timeout_source, deadline_from_first_poll, awake_characterisation, resolves_from_wake, resolves_by_deadline, "
@@ -1219,7 +1315,11 @@ SPECS = {
                       "result_if_earlier, intime_result_never_lost, unlimited_resolves_with_inner_result, timeout_if_later, cancel_drops_at_deadline, "
                       "nocancel_runs_to_completion, nocancel_timeout_leaves_task, readiness_propagates, refusals_change_no_call, arrival_meets_readiness, "
                       "resolves_by_deadline_whatever_readiness, independent, builder_entry_points, source_copies_agree, error_accessors, "
-                      "services_independent, zero_timeout_nocancel_detaches}: for every configuration (any fixed or "
+                      "services_independent, zero_timeout_nocancel_detaches, trace_is_the_log, result_lines_are_history, one_result_per_caller, "
+                      "woken_iff_poll_resolves, resolves_no_later_than_timeout, resolves_no_later_than_timeout_whatever_readiness, "
+                      "pending_call_never_overdue, log_never_resolves_early, log_inner_result_is_the_inner_outcome, log_timeout_only_if_unfinished, "
+                      "log_cancel_drops_at_deadline, log_nocancel_runs_to_completion, first_poll_nocancel_spawns_only, first_poll_cancel, "
+                      "panicking_inner_call}: for every configuration (any fixed or "
                       "per-request timeout, both modes), every operation sequence and every inner script, a caller polled at or after "
                       "min(done, deadline) resolves, with the inner result whenever the inner call has finished (in both modes, also "
                       "when polled late) and with the timeout error when only the deadline has passed; a call that finished before its "
@@ -1236,7 +1336,16 @@ SPECS = {
                       "answers what every call captures; is_timeout() / into_inner() / ResilienceError::from say what the delivered variant says "
                       "(is_timeout only at or after the deadline); for any division of the callers into services / handles each group's records are "
                       "those of the run of that group alone; a zero timeout without cancellation reports the timeout and then starts the detached "
-                      "inner call, which is never dropped. The model is tied to the real TimeLimiterLayer by "
+                      "inner call, which is never dropped. Over the observable log (trace = State.log with the instant of every line, what the "
+                      "driver prints): the result lines of a caller are exactly the results of its ghost history (both directions, with instant and "
+                      "serial), at most one per caller, and more: the lines of a caller in the log, in order, ARE its history; the inner_done lines of one "
+                      "advance stand in timer order (instant, then serial); a result line never stands before min(done, deadline), a non-timeout result is the inner "
+                      "outcome at or after done, an err:timeout line means the deadline had been reached and the inner call had NOT finished at that "
+                      "instant (but for the zero-timeout first poll without cancellation), in cancel mode with an inner_drop line at the same "
+                      "instant, in non-cancel mode never an inner_drop line and an inner_done line once the latency is over; and for a caller that "
+                      "is polled whenever it is woken (PolledWhenWoken: the clock never passes the wake-up = earliest armed of {inner completion, "
+                      "deadline} of its pending call) every result line stands at min(done, deadline) <= first poll + timeout, and a pending call is "
+                      "never overdue. The model is tied to the real TimeLimiterLayer by "
                       "line-for-line agreement of event logs on generated schedules.",
         "level_note": LEVEL_NOTE,
         "trusted": ["tokio time::timeout / spawn / oneshot / select! / timer-wheel order as transcribed in TR.Model.TimeLimiter (sampled by the correspondence check)",
